@@ -39,8 +39,6 @@ func main() {
 		os.Exit(replayFile(os.Args[2]))
 	case "dump":
 		os.Exit(dump(os.Args[2:]))
-	case "bench":
-		os.Exit(bench(os.Args[2:]))
 	}
 	os.Exit(run(os.Args[1]))
 }
@@ -60,13 +58,13 @@ func cleanupShm() {
 }
 
 type tierCfg struct {
-	Depth    int
+	Depth     int
 	CoreDepth int // histories up to this length over the core alphabet only (0: none)
 	Core      map[string]bool
-	MaxBits  int
-	Masks    []int
-	HdrMasks []int
-	Budget   time.Duration
+	MaxBits   int
+	Masks     []int
+	HdrMasks  []int
+	Budget    time.Duration
 }
 
 func allMasks() []int {
@@ -83,7 +81,7 @@ func cfgFor(tier string) tierCfg {
 			Masks:    []int{0x01, 0x02, 0x04, 0x08, 0x10, 0x20, 0x40, 0x80, 0xFF, 0x55, 0x03},
 			HdrMasks: allMasks(), Budget: 13 * time.Minute}
 	}
-	return tierCfg{Depth: 3, CoreDepth: 4, Core: coreShapes, MaxBits: 10, Masks: []int{0x01, 0x80, 0xFF}, Budget: 80 * time.Second}
+	return tierCfg{Depth: 3, CoreDepth: 4, Core: coreShapes, MaxBits: 10, Masks: []int{0x01, 0x80, 0xFF}, HdrMasks: []int{0x01, 0x80, 0xFF, 0}, Budget: 80 * time.Second}
 }
 
 // core alphabet: one representative per kind of operation (quick tier, one level deeper)
@@ -234,7 +232,7 @@ func run(prop string) int {
 				corruptBytes += n
 				a.corrFiles++
 				chunk := 48
-				if len(cfg.HdrMasks) > 0 {
+				if len(cfg.HdrMasks) > 100 {
 					chunk = 8
 				}
 				for from := 0; from < n; from += chunk {
@@ -360,42 +358,43 @@ func run(prop string) int {
 		"evaluations":         a.res.Evals,
 		"distinct_nontrivial": a.res.Mixed + a.res.HitWritten,
 		"rule": "histories = every applicable sequence of length <= depth over the 15 operation shapes (seg 2 KiB; up to core_alphabet_depth over the core alphabet, keys 100+d in histories_by_depth) + hand-shaped long histories (2 and 8 KiB segments), run on the real wal/snap code; " +
-			"crash images = at every Fsync/Fdatasync callback and API return, every per-sector choice between the content durable at the last completed sync of the file and the contents observed since (x namespace before/after, x size-follows-data / zero-filled), de-duplicated by content hash per history; " +
+			"crash images = at every Fsync/Fdatasync callback and API return, every per-sector choice between the content durable at the last completed sync of the file and the contents observed since (x namespace before/after, x size-follows-data / zero-filled; with more than sector_subset_bits undetermined sectors: all subsets of the last sector_subset_bits x {all,none} of the earlier ones, listed in caps_hit), de-duplicated by content hash per history; the oracle demands replay(first p records) for some p between the records acknowledged by completed calls and the records written so far; " +
 			"corruption = every byte offset of every segment (written area + 64) and snapshot file of the long histories' final image x masks; one evaluation = one run of a real reader (OpenForRead, Verify, ValidSnapshotEntries, Open+ReadAll[+Repair], Load, LoadNewestAvailable, reopen after append). " +
 			"non-trivial = distinct crash images that differ from both the all-old and the all-new neighbour image (torn images) + corruption cases whose flipped byte lies in the written area",
-		"samples":                    samples,
-		"exhaustive":                 exhaustive,
-		"histories":                  a.histories,
-		"histories_by_depth":         intMap(a.byDepth),
-		"histories_done_by_depth":    intMap(a.doneDepth),
-		"history_depth_completed":    depthDone,
-		"core_alphabet_histories":    coreN,
-		"core_alphabet_depth":        cfg.CoreDepth,
-		"core_alphabet":              coreNames(cfg.Core),
-		"alphabet":                   alphabetNames(),
-		"inapplicable_histories":     a.inapplic,
-		"long_histories":             len(longHists),
-		"long_history_segment_cuts":  longCuts,
-		"crash_points":               a.res.Points,
-		"crash_points_without_torn":  a.res.TrivialPts,
-		"crash_images_distinct":      a.res.Images,
-		"crash_images_torn":          a.res.Mixed,
-		"crash_images_short_file":    a.res.Short,
-		"crash_points_capped":        a.res.Capped,
-		"max_undetermined_sectors":   a.maxSectors,
-		"sector_subset_bits":         cfg.MaxBits,
-		"corruption_cases":           a.res.Cases,
-		"corruption_cases_in_written_area": a.res.HitWritten,
-		"corruption_files":           a.corrFiles,
-		"corruption_histories":       corruptHists,
-		"corruption_bytes":           corruptBytes,
-		"corruption_masks":           len(cfg.Masks),
+		"samples":                           samples,
+		"exhaustive":                        exhaustive,
+		"histories":                         a.histories,
+		"histories_by_depth":                intMap(a.byDepth),
+		"histories_done_by_depth":           intMap(a.doneDepth),
+		"history_depth_completed":           depthDone,
+		"core_alphabet_histories":           coreN,
+		"core_alphabet_depth":               cfg.CoreDepth,
+		"core_alphabet":                     coreNames(cfg.Core),
+		"alphabet":                          alphabetNames(),
+		"inapplicable_histories":            a.inapplic,
+		"long_histories":                    len(longHists),
+		"long_history_segment_cuts":         longCuts,
+		"crash_points":                      a.res.Points,
+		"crash_points_without_torn":         a.res.TrivialPts,
+		"crash_images_distinct":             a.res.Images,
+		"crash_images_torn":                 a.res.Mixed,
+		"crash_images_short_file":           a.res.Short,
+		"crash_points_capped":               a.res.Capped,
+		"max_undetermined_sectors":          a.maxSectors,
+		"sector_subset_bits":                cfg.MaxBits,
+		"corruption_cases":                  a.res.Cases,
+		"corruption_cases_in_written_area":  a.res.HitWritten,
+		"corruption_files":                  a.corrFiles,
+		"corruption_histories":              corruptHists,
+		"corruption_bytes":                  corruptBytes,
+		"corruption_masks":                  len(cfg.Masks),
 		"corruption_masks_structural_bytes": len(cfg.HdrMasks),
-		"result_classes":             a.res.Classes,
-		"caps_hit":                   caps,
-		"workers_died":               a.died,
-		"harness_errors":             a.errs,
-		"flaky":                      flaky,
+		"corruption_mask_note":              "structural bytes = frame length, record type/crc/data-length fields and their tags, padding, first 12 bytes of a .snap file; mask 0 in the structural list means 'zero the byte'",
+		"result_classes":                    a.res.Classes,
+		"caps_hit":                          caps,
+		"workers_died":                      a.died,
+		"harness_errors":                    a.errs,
+		"flaky":                             flaky,
 	}
 	assumptions := []string{
 		"sector-atomic storage: a 512-byte sector holds either its content at the last completed fsync/fdatasync of the file or a content written since; unwritten sectors of preallocated space read as zeros",
@@ -580,25 +579,5 @@ func dump(args []string) int {
 		}
 	}
 	fmt.Println("self-check:", r.selfErr)
-	return 0
-}
-
-// bench: walmc bench <n> <op>...  (profiling aid)
-func bench(args []string) int {
-	n, _ := strconv.Atoi(args[0])
-	os.Setenv("WALMC_PARENT", "bench")
-	defer os.RemoveAll(workerScratch())
-	f, _ := os.Create("/verif/.build/walmc.prof")
-	pprofStart(f)
-	t0 := time.Now()
-	var res result
-	for i := 0; i < n; i++ {
-		res = result{Classes: map[string]int{}}
-		t := task{Kind: "crash", Seg: 2048, Ops: args[1:], MaxBits: 10}
-		doCrash(&t, &res, func() {})
-	}
-	pprofStop()
-	f.Close()
-	fmt.Printf("%d runs, %.2f ms/run, images %d evals %d points %d err %q\n", n, float64(time.Since(t0).Microseconds())/1000/float64(n), res.Images, res.Evals, res.Points, res.Err)
 	return 0
 }
